@@ -203,8 +203,8 @@ theorem nonNeg_putSupply {s s' : St} {code : Nat} {v : Int} (h : putSupply s cod
 theorem nonNeg_apply {fixed : Bool} {stable s s' : St} {op : Op} (h : apply fixed stable s op = .ok s')
     (N : NonNeg s) : NonNeg s' := by
   cases op with
-  | create sd hsh cat dv rp dc fz =>
-    obtain ⟨_, he, _, ha⟩ := create_ok h
+  | create sd hsh cat dv rp dc fz big =>
+    obtain ⟨he, _, ha⟩ := create_ok h
     constructor
     · intro x y c w hw; rw [he] at hw; exact N.1 x y c w hw
     · intro x r hr
@@ -321,7 +321,7 @@ theorem transfer_only_debits_sender_partial (stable s s' : St) (sd rc id ck : Na
 
 /-- account 1 creates token 1, issues 100 to Alice (2) and 100 to Bob (3); Bob sends "-60" to Alice -/
 def witnessBlocks : List (List Op) :=
-  [[.create 1 1 1 true true 2 false],
+  [[.create 1 1 1 true true 2 false false],
    [.issue 1 2 10 1 3 (some 100), .issue 1 3 11 1 3 (some 100)],
    [.transfer 3 2 1 0 (parseAmount "-60".toList)]]
 
@@ -353,17 +353,31 @@ def NonNegAmt : Op → Prop
   | .transfer _ _ _ _ (some a) => 0 ≤ a
   | _ => True
 
+/-- CreateAssetTx has no existence check: the theorems about existing assets assume that a create's tx hash does
+    not already name an asset (tx hashes are unique; see `create_resets_existing` for what the code would do) -/
+def FreshCreate (s : St) : Op → Prop
+  | .create _ h _ _ _ _ _ _ => s.assets h = none
+  | _ => True
+
+/-- TOTALISATION made visible: a create whose hash already names an asset is accepted and replaces the record —
+    new issuer, supply 0 — whatever the old record was -/
+theorem create_resets_existing (fixed : Bool) (stable s s' : St) (sd x cat dc : Nat) (dv rp fz big : Bool)
+    (h : apply fixed stable s (.create sd x cat dv rp dc fz big) = .ok s') :
+    s'.assets x = some { issuer := sd, category := cat, divisible := dv, replenishable := rp, frozen := fz, supply := 0 } := by
+  obtain ⟨_, _, ha⟩ := create_ok h
+  rw [ha]; simp
+
 theorem supply_changes_core {fixed : Bool} {stable s s' : St} {op : Op}
-    (h : apply fixed stable s op = .ok s') (hg : fixed = true ∨ NonNegAmt op)
+    (h : apply fixed stable s op = .ok s') (hg : fixed = true ∨ NonNegAmt op) (hc : FreshCreate s op)
     (x : Nat) (r r' : AssetRec) (hr : s.assets x = some r) (hr' : s'.assets x = some r')
     (hne : r'.supply ≠ r.supply) :
     (r.supply < r'.supply ∧ IssuerMint op r.issuer x) ∨ (r'.supply < r.supply ∧ HolderBurn s op x) := by
   cases op with
-  | create sd hsh cat dv rp dc fz =>
-    obtain ⟨hn, _, _, ha⟩ := create_ok h
+  | create sd hsh cat dv rp dc fz big =>
+    obtain ⟨_, _, ha⟩ := create_ok h
     rw [ha] at hr'
     by_cases e : x = hsh
-    · subst e; rw [hn] at hr; cases hr
+    · subst e; rw [hc] at hr; cases hr
     · simp only [e, if_false] at hr'
       rw [hr] at hr'; injection hr' with hr'; subst hr'; exact absurd rfl hne
   | issue sd rc hsh code m amt =>
@@ -451,32 +465,32 @@ theorem supply_changes_core {fixed : Bool} {stable s s' : St} {op : Op}
     existing asset only upwards by an issue / replenish SENT BY ITS ISSUER, or downwards by a transfer to 0x0
     sent by an account that holds a positive entry of the asset -/
 theorem supply_changes_only_by (stable s s' : St) (op : Op) (h : apply true stable s op = .ok s')
-    (x : Nat) (r r' : AssetRec) (hr : s.assets x = some r) (hr' : s'.assets x = some r')
+    (hc : FreshCreate s op) (x : Nat) (r r' : AssetRec) (hr : s.assets x = some r) (hr' : s'.assets x = some r')
     (hne : r'.supply ≠ r.supply) :
     (r.supply < r'.supply ∧ IssuerMint op r.issuer x) ∨ (r'.supply < r.supply ∧ HolderBurn s op x) :=
-  supply_changes_core h (Or.inl rfl) x r r' hr hr' hne
+  supply_changes_core h (Or.inl rfl) hc x r r' hr hr' hne
 
 /-- the code before the repair: only under the guard 0 ≤ amount -/
 theorem supply_changes_only_by_partial (stable s s' : St) (op : Op) (h : apply false stable s op = .ok s')
-    (hg : NonNegAmt op)
+    (hg : NonNegAmt op) (hc : FreshCreate s op)
     (x : Nat) (r r' : AssetRec) (hr : s.assets x = some r) (hr' : s'.assets x = some r')
     (hne : r'.supply ≠ r.supply) :
     (r.supply < r'.supply ∧ IssuerMint op r.issuer x) ∨ (r'.supply < r.supply ∧ HolderBurn s op x) :=
-  supply_changes_core h (Or.inr hg) x r r' hr hr' hne
+  supply_changes_core h (Or.inr hg) hc x r r' hr hr' hne
 
 /-- a new asset record appears only through a create, with supply 0 -/
 theorem asset_born_by_create (fixed : Bool) (stable s s' : St) (op : Op) (h : apply fixed stable s op = .ok s')
     (x : Nat) (r' : AssetRec) (hr : s.assets x = none) (hr' : s'.assets x = some r') :
-    r'.supply = 0 ∧ ∃ cat dv rp dc fz, op = .create r'.issuer x cat dv rp dc fz := by
+    r'.supply = 0 ∧ ∃ cat dv rp dc fz big, op = .create r'.issuer x cat dv rp dc fz big := by
   cases op with
-  | create sd hsh cat dv rp dc fz =>
-    obtain ⟨_, _, _, ha⟩ := create_ok h
+  | create sd hsh cat dv rp dc fz big =>
+    obtain ⟨_, _, ha⟩ := create_ok h
     rw [ha] at hr'
     by_cases e : x = hsh
     · subst e
       simp only [if_true] at hr'
       injection hr' with hr'; subst hr'
-      exact ⟨rfl, cat, dv, rp, dc, fz, rfl⟩
+      exact ⟨rfl, cat, dv, rp, dc, fz, big, rfl⟩
     · simp only [e, if_false] at hr'; rw [hr] at hr'; cases hr'
   | issue sd rc hsh code m amt =>
     obtain ⟨a, r0, s1, s2, tid, newEq, _, _, _, _, h1, h2, h3, _⟩ := issue_ok h
@@ -522,7 +536,7 @@ theorem asset_born_by_create (fixed : Bool) (stable s s' : St) (op : Op) (h : ap
 
 /-- blocks of the witness for minting by a non-issuer: Alice (2) holds 100 of token 1 and sends "-7" to 0x0 -/
 def burnWitness : List (List Op) :=
-  [[.create 1 1 1 true true 2 false],
+  [[.create 1 1 1 true true 2 false false],
    [.issue 1 2 10 1 3 (some 100)],
    [.transfer 2 0 1 0 (parseAmount "-7".toList)]]
 
@@ -553,11 +567,12 @@ structure IdInv (s : St) : Prop where
     asset id or asset code before), and a replenish names an id that belongs to its own asset code.
     The real code checks neither (see `supply_eq_sum_refuted`). -/
 def IdOK (s : St) : Op → Prop
-  | .create _ h _ _ _ _ _ => ∀ a, s.equity a h = none
+  | .create _ h _ _ _ _ _ _ => (∀ a, s.equity a h = none) ∧ s.assets h = none
   | .issue sd _ h code _ _ =>
     ∀ r, lookup s sd code = some r → r.category ≠ 1 → (∀ a, s.equity a h = none) ∧ s.assets h = none
-  | .replenish _ _ code id _ =>
-    (∀ a c e, s.equity a id = some (c, e) → c = code) ∧ (∀ r, s.assets id = some r → id = code)
+  | .replenish sd _ code id _ =>
+    ∀ r, lookup s sd code = some r →
+      (∀ a c e, s.equity a id = some (c, e) → c = code) ∧ (∀ r', s.assets id = some r' → id = code)
   | _ => True
 
 theorem idInv_putEquity {s s' : St} {a id c : Nat} {e : Int} (h : putEquity s a id (c, e) = .ok s')
@@ -617,15 +632,15 @@ theorem idInv_putSupply {s s' : St} {code : Nat} {v : Int} (h : putSupply s code
 theorem idInv_apply {fixed : Bool} {stable s s' : St} {op : Op} (h : apply fixed stable s op = .ok s')
     (I : IdInv s) (g : IdOK s op) : IdInv s' := by
   cases op with
-  | create sd hsh cat dv rp dc fz =>
-    obtain ⟨_, he, _, ha⟩ := create_ok h
+  | create sd hsh cat dv rp dc fz big =>
+    obtain ⟨he, _, ha⟩ := create_ok h
     constructor
     · intro x y i c1 e1 c2 e2 hx hy
       rw [he] at hx hy; exact I.idc x y i c1 e1 c2 e2 hx hy
     · intro x i c e r' hx hr'
       rw [he] at hx; rw [ha] at hr'
       by_cases k : i = hsh
-      · subst k; rw [g x] at hx; cases hx
+      · subst k; rw [g.1 x] at hx; cases hx
       · simp only [k, if_false] at hr'; exact I.own x i c e r' hx hr'
   | issue sd rc hsh code m amt =>
     obtain ⟨a, r, s1, s2, tid, newEq, _, _, hl, _, h1, h2, h3, hcat⟩ := issue_ok h
@@ -651,8 +666,8 @@ theorem idInv_apply {fixed : Bool} {stable s s' : St} {op : Op} (h : apply fixed
     exact ⟨I2.idc, I2.own⟩
   | replenish sd rc code id amt =>
     obtain ⟨a, r, s1, _, _, hl, _, _, _, _, h1, h2⟩ := replenish_ok h
-    exact idInv_putSupply h2 (idInv_putEquity h1 I (fun b c2 e2 hb => g.1 b c2 e2 hb)
-      (fun r' hr' => (g.2 r' hr').symm))
+    exact idInv_putSupply h2 (idInv_putEquity h1 I (fun b c2 e2 hb => (g r hl).1 b c2 e2 hb)
+      (fun r' hr' => ((g r hl).2 r' hr').symm))
   | modify sd code fz =>
     obtain ⟨r, hl, he, _, hcase⟩ := modify_ok h
     rcases hcase with rfl | ⟨b, _, ha⟩
@@ -718,12 +733,12 @@ theorem frozen_immovable (fixed : Bool) (stable s s' : St) (op : Op) (h : apply 
     ∀ a i, ((∃ e, s.equity a i = some (x, e)) ∨ (∃ e, s'.equity a i = some (x, e))) →
       s'.equity a i = s.equity a i := by
   cases op with
-  | create sd hsh cat dv rp dc fz =>
-    obtain ⟨hn, he, _, ha⟩ := create_ok h
+  | create sd hsh cat dv rp dc fz big =>
+    obtain ⟨he, _, ha⟩ := create_ok h
     refine ⟨?_, fun a i _ => by rw [he]⟩
     rw [ha]
     by_cases e : x = hsh
-    · subst e; rw [hn] at hr; cases hr
+    · subst e; rw [g.2] at hr; cases hr
     · simp only [e, if_false]; exact hr
   | issue sd rc hsh code m amt =>
     obtain ⟨a, r0, s1, s2, tid, newEq, _, _, hl, hfz, h1, h2, h3, hcat⟩ := issue_ok h
@@ -911,8 +926,9 @@ theorem sumInv_apply {fixed : Bool} {stable s s' : St} {op : Op} {keys : List (N
     (ht : ∀ k ∈ touched op, k ∈ keys) : SumInv s' keys := by
   have hids : IdInv s' := idInv_apply h V.ids g
   cases op with
-  | create sd hsh cat dv rp dc fz =>
-    obtain ⟨hnone, he, _, ha⟩ := create_ok h
+  | create sd hsh cat dv rp dc fz big =>
+    obtain ⟨he, _, ha⟩ := create_ok h
+    have hnone : s.assets hsh = none := g.2
     have hsum : ∀ x, sumCode s' x keys = sumCode s x keys :=
       fun x => sumCode_congr s s' x keys (fun _ _ => by rw [he])
     refine ⟨?_, ?_, hids, ?_⟩
@@ -1192,7 +1208,7 @@ theorem supply_eq_sum_equity_partial (fixed : Bool) (blocks : List (List Op)) (k
     replenishes 1 000 000 units of ITS asset 7 to itself under the id of asset 1; then the issuer of asset 1
     issues ONE unit to account 4 -/
 def foreignWitness : List (List Op) :=
-  [[.create 1 1 1 true true 2 false, .create 4 7 1 true true 2 false],
+  [[.create 1 1 1 true true 2 false false, .create 4 7 1 true true 2 false false],
    [.replenish 4 4 7 1 (some 1000000)],
    [.issue 1 4 20 1 4 (some 1)]]
 
@@ -1218,7 +1234,7 @@ example : GuardedBlocks false St.empty witnessBlocks := by
     ITS asset 7 under the id of asset 1 in account 5 and freezes asset 7; a holder of asset 1 then sends 10 units
     to account 5 — the frozen asset's holdings grow to 60 -/
 def frozenWitness : List (List Op) :=
-  [[.create 1 1 1 true true 2 false, .create 4 7 1 true true 2 false],
+  [[.create 1 1 1 true true 2 false false, .create 4 7 1 true true 2 false false],
    [.issue 1 2 20 1 3 (some 100), .replenish 4 5 7 1 (some 50)],
    [.modify 4 7 (.set true)],
    [.transfer 2 5 1 0 (some 10)]]
